@@ -151,6 +151,16 @@ class Ctx:
             raise Inconclusive("apalache timeout on " + module)
         return ("EXITCODE: OK" in p.stdout and p.returncode == 0), p.stdout
 
+    def tlapm(self, module, timeout=900):
+        """TLAPS proof check in the scratch spec directory; returns (obligations proved or 0, output)."""
+        try:
+            p = subprocess.run(["tlapm", "--threads", str(min(8, NCPU)), "--cleanfp", module + ".tla"], cwd=self.specdir,
+                               stdout=subprocess.PIPE, stderr=subprocess.STDOUT, timeout=timeout, text=True, errors="replace")
+        except subprocess.TimeoutExpired:
+            raise Inconclusive("tlapm timeout on " + module)
+        m = re.search(r"All (\d+) obligations? proved", p.stdout)
+        return (int(m.group(1)) if m and p.returncode == 0 else 0), p.stdout
+
     # ------------------------------------------------------------------ Go
     def harness(self, pkg="stun", tags=("verif",), race=False, fuzz=None):
         key = (pkg, tuple(tags), race, fuzz)
